@@ -27,6 +27,7 @@ RULE = ("typestate dataflow on the clang CFG: token iterators (locals, parameter
         "dereferenced only in state CHECKED; helper summaries from bodies; ownership rule")
 # suppressions: one named symbol each, with the reason (confirmed by reading on 2026-09-22)
 ACCEPTED = {
+    "UNCHECKED-DEREF@mfront::BehaviourDSLCommon::treatElasticMaterialProperties#this->current": "readElasticMaterialPropertiesI copies this->current into a local, checks the copy (checkNotEndOfLine) and only then reads through this->current, which still equals the copy (the engine does not relate an iterator to its unmodified copy)",
     "UNCHECKED-INCREMENT@mfront::BehaviourDSLCommon::treatUnknownKeyword#this->current": "same reason as the dereference just before it (accepted below): when no brick treated the keyword the iterator has not moved since checkNotEndOfFile, and it was just dereferenced ('[')",
     "UNCHECKED-DEREF@mfront::SupportedTypes::parseType#current": "the template-argument loop is left only through 'c = false', which is set right after checkIteratorValidity(current, end) with no advance in between (flag correlation not tracked by the engine)",
     "UNCHECKED-DEREF@mfront::BehaviourDSLCommon::treatUnknownKeyword#this->current": "read only when no brick treated the keyword: a brick that returns {false, .} has not moved the iterator (contract of AbstractBehaviourBrick::treatKeyword), and the position was checked on entry",
@@ -305,6 +306,7 @@ def run(tier):
     rep.floor("loops examined for progress (libraries)", 25)
     rep.floor("loops examined for progress", 60)
     lock_unwind_rule(rep)
+    C54.smart_pointer_rule(rep, funcs, scope_re=r"^mfront::.*::(treat|set|add|register|handle)[A-Z]\w*$", accepted=ACCEPTED, what="mfront")
     rep.floor("iterator dereference sites", 300)
     rep.assumptions += ["a necessary condition only: of termination, only 'no loop has a state-preserving trip' (LOOP-PROGRESS) and 'no unguarded recursion on files' are decided; the other sources of undefined behaviour are not decided",
                         "quick tier: the anchor units; thorough: every unit of mfront/src and mfront-query/src"]
